@@ -464,10 +464,14 @@ def ev_clock_single(case, rec):
     ev_clock(case, rec)
 
 
+from gpmc import interp as _ip
+
+
 SUBCHECKS = [
     Sub('remove', gen_remove, ev_remove, chunk=1, floor=100, guard=True, envs=2),
     Sub('other', gen_other, ev_other, chunk=2, floor=20, guard=True, envs=1),
     Sub('clock', gen_clock, ev_clock_single, chunk=1, floor=100, guard=True, envs=1),
+    Sub('interpreter', *_ip.make('C18', 'gnss'), chunk=1, floor=5, poison=False),
 ]
 
 
